@@ -231,6 +231,12 @@ def check_c04(res, report):
             return
     o = outs[-1]
     t_out = o["t"]
+    if expected == 1 and cfg.behaviour in ("abort", "raise-abort") and not res.lan.plan.applied and o.get("outcome") == "abort" and o.get("reason") == 65:
+        # nothing was lost: the abort the requester is told about has to be the server's, not its own "no response" after
+        # having repeated (and the server having executed) the request several times
+        n_exec = sum(1 for e in res.events if e["ev"] == "indication" and e["who"] == "server")
+        report("server-abort-does-not-reach-the-requester", {"outcome_after": t_out - res.t0, "request_executed_times": n_exec})
+        return
     if t_out - res.t0 > res.bound + 1e-6:
         report("outcome-later-than-bound", {"after": t_out - res.t0, "bound": res.bound})
     if cfg.path == "iocb":
